@@ -140,6 +140,7 @@ fn forgeries(auth: &WMessage, n_players: usize, payloads: &[Vec<u8>]) -> Vec<(St
     for (name, f) in [
         ("frame-size-0", Box::new(|fr: &mut Vec<Vec<u8>>| for x in fr.iter_mut() { x.clear() }) as Box<dyn Fn(&mut Vec<Vec<u8>>)>),
         ("frame-size-s+1", Box::new(|fr: &mut Vec<Vec<u8>>| for x in fr.iter_mut() { for b in x.iter_mut() { *b ^= 0x2A } x.push(0x11) })),
+        ("frame-size-s-1", Box::new(|fr: &mut Vec<Vec<u8>>| for x in fr.iter_mut() { for b in x.iter_mut() { *b ^= 0x2A } x.pop(); })),
         ("frame-size-2s", Box::new(|fr: &mut Vec<Vec<u8>>| for x in fr.iter_mut() { for b in x.iter_mut() { *b ^= 0x2A } let c = x.clone(); x.extend(c) })),
         ("extra-frames-of-size-s+1", Box::new(|fr: &mut Vec<Vec<u8>>| { let l = fr.last().cloned().unwrap_or_default(); for _ in 0..3 { let mut y = l.clone(); for b in y.iter_mut() { *b ^= 0x15 } y.push(7); fr.push(y) } })),
     ] {
@@ -211,9 +212,9 @@ pub fn c08() -> i32 {
     let mut states = Vec::new();
     // (name, base scenario, rounds at which to inject)
     let mut bases: Vec<(Scenario, Vec<i32>)> = Vec::new();
-    for (w, spec) in [(2usize, false), (0, false), (8, true)] {
+    for (w, spec, tp) in [(2usize, false, "1+1"), (0, false, "1+1"), (8, true, "1+1"), (3, false, "1+2")] {
         // running phase (rollback-heavy: changing inputs, 1 round of latency)
-        let mut s = base_scn("c08-running", "1+1", w, 0, false, Pred::RepeatLast, Program::Changing, 1);
+        let mut s = base_scn("c08-running", tp, w, 0, false, Pred::RepeatLast, Program::Changing, 1);
         if spec {
             s.specs.push(SpecSpec::new(20, s.peers[0].addr));
         }
@@ -222,7 +223,7 @@ pub fn c08() -> i32 {
         s.checks = CK_CORE;
         bases.push((s, if t { (0..12).collect() } else { vec![0, 1, 4, 9] }));
         // handshake phase
-        let mut s = base_scn("c08-handshake", "1+1", w, 0, false, Pred::RepeatLast, Program::Changing, 1);
+        let mut s = base_scn("c08-handshake", tp, w, 0, false, Pred::RepeatLast, Program::Changing, 1);
         if spec {
             s.specs.push(SpecSpec::new(20, s.peers[0].addr));
         }
